@@ -148,6 +148,11 @@ SYSTEMS = {"transfer": (Transfer, 4), "shuffle": (ShuffleUpdate, 3), "move": (Mo
            "fpick": (FilteredPick, 0), "nwalk": (NeighbourWalk, 2)}
 
 
+class Grazer(Agent):
+    """An agent class with a default tag: every model sets it when it is built (class defaults are shared by the process and
+    affect agents created afterwards); founders created without an explicit tag receive it then and keep it."""
+
+
 class ChaosModel(Model):
     SEEDING = "ctor"      # how the model's generator gets its seed (see the subclasses below): the stream is the same
 
@@ -178,8 +183,10 @@ class ChaosModel(Model):
             self.environment = SpaceWorld(self, float(w), float(h))
         elif kind == "space_wrap":
             self.environment = SpaceWorld(self, float(w), float(h), wrap_env=True)
+        if c.get("default_tag") is not None:
+            Grazer.tag = c["default_tag"]
         for i in range(c["pop"]):
-            self.spawn(f"a{i}")
+            self.spawn(f"a{i}", founding=True)
         for name in c["systems"]:
             cls, prio = SYSTEMS[name]
             self.systems.add_system(cls(name, self, priority=prio))
@@ -191,9 +198,13 @@ class ChaosModel(Model):
         self.systems.add_system(DigestCollector("digest", self, priority=-10))
         self.systems.add_system(Stopper("stopper", self, priority=-20))
 
-    def spawn(self, aid):
+    def spawn(self, aid, founding=False):
         r = self.random
-        a = Agent(aid, self, tag=r.choice([0, 0, 1, 1, 2]))
+        t_ = r.choice([0, 0, 1, 1, 2])
+        if founding and self.cfg.get("default_tag") is not None and t_ == 2:
+            a = Grazer(aid, self)                  # a founder that takes the default tag its class has at this moment
+        else:
+            a = Agent(aid, self, tag=t_)
         if r.random() < 0.85:
             a.add_component(Wealth(a, self, r.randint(0, 9)))
         if r.random() < 0.5:
@@ -264,4 +275,4 @@ def gen_cfg(rng, tier="quick"):
             "systems": names, "horizon": rng.randint(5, 30 if tier == "thorough" else 14),
             "ambient": [rng.choice([5, 3, 2, 1, 0, -1, -5]) for _ in range(rng.randint(0, 3))],
             "collector": rng.random() < 0.8, "radius": rng.choice([1, 1, 2]), "nmode": rng.choice(["moore", "neumann"]),
-            "driver_draws": rng.random() < 0.4}
+            "driver_draws": rng.random() < 0.4, "default_tag": rng.choice([None, None, 0, 1, 2, 2])}
